@@ -28,7 +28,7 @@ def install_hooks(models):
 def value_of(eng, st, x, name_sid):
     """getattr(x, name, MISSING) by ordinary lookup"""
     iv = z3.If(is_ref(x), z3.Select(st.get("idict", a_of(x)), name_sid), ABSENT)
-    v = z3.If(is_absent(iv), clsattr(eng.type_of(st, x), name_sid), iv)
+    v = z3.If(is_absent(iv), cls_level(eng, st, x, name_sid), iv)
     return z3.If(is_absent(v), sentinel(eng, st, "MISSING"), v)
 
 
